@@ -108,22 +108,14 @@ theorem pandas_builtin_eq_docPred (b : Builtin) (v : Val) (hv : builtinValid b =
       simp [evalVia, lookupCE, pandasBuiltins, Builtin.pyName, Builtin.pyArgs, CE.eval, operandVal, cmpVals, docPred]
   | isin vs => simp [evalVia, lookupCE, pandasBuiltins, Builtin.pyName, Builtin.pyArgs, CE.eval, docPred]
   | notin vs => simp [evalVia, lookupCE, pandasBuiltins, Builtin.pyName, Builtin.pyArgs, CE.eval, docPred]
-  | strMatches p =>
-    simp [evalVia, lookupCE, pandasBuiltins, Builtin.pyName, Builtin.pyArgs, CE.eval, docPred]
-    cases v.str? <;> rfl
-  | strContains p =>
-    simp [evalVia, lookupCE, pandasBuiltins, Builtin.pyName, Builtin.pyArgs, CE.eval, docPred]
-    cases v.str? <;> rfl
-  | strStartswith s =>
-    simp [evalVia, lookupCE, pandasBuiltins, Builtin.pyName, Builtin.pyArgs, CE.eval, docPred]
-    cases v.str? <;> rfl
-  | strEndswith s =>
-    simp [evalVia, lookupCE, pandasBuiltins, Builtin.pyName, Builtin.pyArgs, CE.eval, docPred]
-    cases v.str? <;> rfl
+  | strMatches p => simp [evalVia, lookupCE, pandasBuiltins, Builtin.pyName, Builtin.pyArgs, CE.eval, docPred]
+  | strContains p => simp [evalVia, lookupCE, pandasBuiltins, Builtin.pyName, Builtin.pyArgs, CE.eval, docPred]
+  | strStartswith s => simp [evalVia, lookupCE, pandasBuiltins, Builtin.pyName, Builtin.pyArgs, CE.eval, docPred]
+  | strEndswith s => simp [evalVia, lookupCE, pandasBuiltins, Builtin.pyName, Builtin.pyArgs, CE.eval, docPred]
   | strLength lo hi =>
     cases lo <;> cases hi <;> simp [builtinValid] at hv <;>
       simp [evalVia, lookupCE, pandasBuiltins, Builtin.pyName, Builtin.pyArgs, CE.eval, docPred, optNat, cmpNat] <;>
-      cases v <;> simp [Val.str?, optAnd, Bool.and_comm]
+      cases v <;> simp [strOp, optAnd, Bool.and_comm]
 
 end C01
 end Pandera
